@@ -211,6 +211,39 @@ def freeze_correspondence(ctx, progs, found_by):
     ctx.stage('freeze-correspondence:' + found_by, cases=len(meta), bindings_frozen=frozen, diffs=diffs)
 
 
+# ---- taint detection by names against its Lean model (PMV.Taint; theorems T09.4) ----
+
+def taint_correspondence(ctx, progs, found_by):
+    """module.tainted after resolve_names = tainted already (star import, timeit: syntactic, set by bind_names) or the model's
+    verdict on the lookups resolve_names made, over the namespace tree bind_names built"""
+    import taint_corr
+    reqs, meta = [], []
+    for ident, src in progs:
+        try:
+            req, before, after, n = taint_corr.request_for(src)
+        except (SyntaxError, RecursionError):
+            continue
+        reqs.append(req)
+        meta.append((ident, src, before, after, n))
+    answers = ctx.driver.ask(reqs) if reqs else []
+    diffs = tainted = lookups = 0
+    for (ident, src, before, after, n), ans in zip(meta, answers):
+        ctx.count()
+        lookups += n
+        if not ans.startswith('ok'):
+            ctx.add_broken('correspondence', 'taint.names:' + ident, 'driver answered %r' % ans[:100])
+            continue
+        model = ans[3:].strip() == '1'
+        tainted += int(after)
+        if model:
+            ctx.mark_nontrivial('taint:' + ident)
+        if after != (before or model):
+            diffs += 1
+            ctx.add_broken('correspondence', 'taint.names:' + ident,
+                           'module.tainted is %r after resolve_names (was %r after bind_names), the model (PMV.Taint) says tainted by names: %r, in %r' % (after, before, model, src[:400]))
+    ctx.stage('taint-correspondence:' + found_by, modules=len(meta), lookups=lookups, tainted=tainted, diffs=diffs)
+
+
 def control_group(ctx):
     """Shadowed trigger names are not taint triggers: renaming must still happen (keeps the oracle honest)."""
     src = ('def eval(arg):\n    return arg\ndef locals():\n    return {}\n'
@@ -234,6 +267,9 @@ def run(ctx):
     run_programs(ctx, [(i, p, b) for i, p, b, _k in rebound_programs()], osets, 'rebound-trigger-names')
     run_programs(ctx, class_rebound_programs(), osets, 'class-rebound-trigger-names')
     freeze_correspondence(ctx, [(i, b) for i, _p, b in progs[:ctx.scale(120, 2500)]] + [('every-binding-form', EVERY_BINDING)] + scopegen.parameter_programs()[:ctx.scale(40, 400)], 'generated')
+    taint_correspondence(ctx, [(i, p) for i, p, _b in progs[:ctx.scale(250, 4000)]] + [(i, p) for i, p, _b in every_binding_programs()]
+                         + [(i, p) for i, p, _b, _k in rebound_programs()] + [(i, p) for i, p, _b in class_rebound_programs()]
+                         + [(i, b) for i, _p, b in progs[:ctx.scale(60, 800)]], 'generated')
     control_group(ctx)
     for k in ctx.known:
         if k.get('replay_source'):
